@@ -18,8 +18,9 @@ import (
 //	type G[X any] struct{ V X } type I interface{ Do(T) U }
 //	type Num interface{ ~int | ~int64 }
 type Pkg struct {
-	Path string `json:"path"` // full import path (module prefix included)
-	Name string `json:"name"` // package clause
+	Path  string `json:"path"` // full import path (module prefix included)
+	Name  string `json:"name"` // package clause
+	Extra string `json:"-"`    // further declarations of this dependency package
 }
 
 // T is the abstract type syntax shared with spec/MoqTypes.tla.
@@ -121,6 +122,7 @@ type SrcPkg struct {
 	Ifaces []Iface           `json:"ifaces"`
 	Extra  string            `json:"-"` // extra declarations (local types)
 	Raw    map[string]string `json:"-"` // hand-written source files (file name -> content) instead of Ifaces
+	SubDir string            `json:"-"` // extra path elements below the package's own directory (import path suffix relations)
 }
 
 // Cfg is one moq configuration.
